@@ -275,6 +275,7 @@ func init() {
 		},
 	}
 	registerGob()
+	registerReflect()
 }
 
 func (m *machine) noteConst(name string, v int64) {
